@@ -319,3 +319,149 @@ case: (eqVneq k k') => [e|ne]; last exact: order_index_mleq.
 by rewrite /inG /coef gi gj e.
 Qed.
 End Top.
+
+(* ---- argmin / argmax / amin / amax without axis ---- *)
+Section Ext.
+Variable R : realDomainType.
+Variables (g r : bool) (p : parr R).
+Hypothesis wp : wfb p.
+Hypothesis pos : (0 < psize p)%N.
+Let sz := psize p.
+Let res := sortable_proxy g r p.
+
+Lemma res_perm : perm_eq res (iota 0 sz). Proof. exact: sortable_proxy_perm. Qed.
+Lemma res_size : size res = sz. Proof. by rewrite (perm_size res_perm) size_iota. Qed.
+Lemma res_uniq : uniq res. Proof. by rewrite (perm_uniq res_perm) iota_uniq. Qed.
+Lemma res_lt i : (i < sz)%N -> (nth 0%N res i < sz)%N.
+Proof.
+move=> li; have : nth 0%N res i \in res by apply: mem_nth; rewrite res_size.
+by rewrite (perm_mem res_perm) mem_iota.
+Qed.
+
+(* the element of rank v *)
+Lemma rank_pos v : (v < sz)%N -> (index v res < sz)%N /\ nth 0%N res (index v res) = v.
+Proof.
+move=> lv; have vin : v \in res by rewrite (perm_mem res_perm) mem_iota.
+by rewrite -res_size index_mem nth_index.
+Qed.
+
+Lemma pargmin_lt : (pargmin g r p < sz)%N.
+Proof. by have [] := rank_pos pos. Qed.
+
+Theorem argmin_least j : (j < sz)%N -> j != pargmin g r p ->
+  (pargmin g r p < sz)%N /\ (nth 0%N res (pargmin g r p) < nth 0%N res j)%N.
+Proof.
+move=> lj ne; have [li e0] := rank_pos pos; rewrite /pargmin -/res; split=> //.
+rewrite e0 lt0n; apply/eqP => ej.
+have ljs : (j < size res)%N by rewrite res_size.
+have := index_uniq 0%N ljs res_uniq; rewrite ej => e.
+by move: ne; rewrite /pargmin -/res e eqxx.
+Qed.
+
+Theorem amax_greatest j : (j < sz)%N -> j != pamax_pos g r p ->
+  (pamax_pos g r p < sz)%N /\ (nth 0%N res j < nth 0%N res (pamax_pos g r p))%N.
+Proof.
+move=> lj ne; have lv : (sz.-1 < sz)%N by rewrite prednK.
+have [li e0] := rank_pos lv; rewrite /pamax_pos -/res -/sz; split=> //.
+rewrite e0; have := res_lt lj; rewrite -[X in (_ < X)%N](prednK pos) ltnS leq_eqVlt => /orP[/eqP ej|//].
+have ljs : (j < size res)%N by rewrite res_size.
+have := index_uniq 0%N ljs res_uniq; rewrite ej => e.
+by move: ne; rewrite /pamax_pos -/res -/sz e eqxx.
+Qed.
+
+(* with leading terms: the minimum by (leading exponent, leading coefficient), first occurrence *)
+Theorem argmin_spec j k0 k : (j < sz)%N -> j != pargmin g r p ->
+  lead_index g r p (pargmin g r p) = Some k0 -> lead_index g r p j = Some k ->
+  if k0 == k
+  then (cell (cols p) k0 (pargmin g r p) < cell (cols p) k0 j)
+       || ((cell (cols p) k0 (pargmin g r p) == cell (cols p) k0 j) && (pargmin g r p < j)%N)
+  else mleq g r (nth [::] (rows p) k0) (nth [::] (rows p) k).
+Proof.
+move=> lj ne l0 lk; have [li lt] := argmin_least lj ne.
+by rewrite -(sortable_proxy_leading wp li lj l0 lk).
+Qed.
+
+Theorem amax_spec j k1 k : (j < sz)%N -> j != pamax_pos g r p ->
+  lead_index g r p (pamax_pos g r p) = Some k1 -> lead_index g r p j = Some k ->
+  if k == k1
+  then (cell (cols p) k j < cell (cols p) k (pamax_pos g r p))
+       || ((cell (cols p) k j == cell (cols p) k (pamax_pos g r p)) && (j < pamax_pos g r p)%N)
+  else mleq g r (nth [::] (rows p) k) (nth [::] (rows p) k1).
+Proof.
+move=> lj ne l1 lk; have [li lt] := amax_greatest lj ne.
+by rewrite -(sortable_proxy_leading wp lj li lk l1).
+Qed.
+End Ext.
+
+Section Rev.
+Variable R : realDomainType.
+Variables (g r : bool) (p : parr R).
+Hypothesis wp : wfb p.
+Hypothesis pos : (0 < psize p)%N.
+Let sz := psize p.
+
+Lemma psize_prev : psize (prev p) = sz.
+Proof. by rewrite /psize /= muln1. Qed.
+
+Lemma wfb_prev : wfb (prev p).
+Proof.
+have [srs rpos urs wid [csz npos un]] := wfbP wp.
+apply: wfbI => //=; rewrite ?size_map //.
+apply/allP => c /mapP[c0 c0in ->]; rewrite size_rev psize_prev.
+by move/allP: csz; apply.
+Qed.
+
+Lemma cell_prev k i : (i < sz)%N -> cell (cols (prev p)) k i = cell (cols p) k (sz - i.+1)%N.
+Proof.
+move=> li; rewrite /cell /=.
+have -> : nth [::] [seq rev c | c <- cols p] k = rev (nth [::] (cols p) k).
+  case: (ltnP k (size (cols p))) => lk; first by rewrite (nth_map [::]).
+  by rewrite !nth_default ?size_map.
+have [_ _ _ _ [csz _ _]] := wfbP wp.
+case: (ltnP k (size (cols p))) => lk; last by rewrite !nth_default //= ?nth_nil.
+have sc : size (nth [::] (cols p) k) = sz by apply/eqP; move/allP: csz; apply; apply: mem_nth.
+by rewrite nth_rev sc.
+Qed.
+
+Lemma foldl_ext (T A : Type) (f1 f2 : A -> T -> A) z s : f1 =2 f2 -> foldl f1 z s = foldl f2 z s.
+Proof. by move=> e; elim: s z => [|x s IH] z //=; rewrite e IH. Qed.
+
+Lemma lead_index_prev i : (i < sz)%N -> lead_index g r (prev p) i = lead_index g r p (sz - i.+1)%N.
+Proof.
+move=> li; rewrite /lead_index /=.
+by apply: foldl_ext => acc k; rewrite cell_prev.
+Qed.
+
+Lemma pargmax_lt : (pargmax g r p < sz)%N.
+Proof. rewrite /pargmax; move: pos; rewrite -/sz; lia. Qed.
+
+(* the maximum by (leading exponent, leading coefficient), FIRST occurrence *)
+Theorem argmax_spec j k1 k : (j < sz)%N -> j != pargmax g r p ->
+  lead_index g r p (pargmax g r p) = Some k1 -> lead_index g r p j = Some k ->
+  if k == k1
+  then (cell (cols p) k j < cell (cols p) k (pargmax g r p))
+       || ((cell (cols p) k j == cell (cols p) k (pargmax g r p)) && (pargmax g r p < j)%N)
+  else mleq g r (nth [::] (rows p) k) (nth [::] (rows p) k1).
+Proof.
+move=> lj ne l1 lk.
+have pos' : (0 < psize (prev p))%N by rewrite psize_prev.
+set j' := pamax_pos g r (prev p).
+have ej' : pargmax g r p = (sz.-1 - j')%N by rewrite /pargmax /j' /pamax_pos psize_prev.
+have lv : ((psize (prev p)).-1 < psize (prev p))%N by rewrite prednK.
+have lj' : (j' < sz)%N.
+  have pe := sortable_proxy_perm g r wfb_prev.
+  have sq : size (sortable_proxy g r (prev p)) = sz by rewrite (perm_size pe) size_iota psize_prev.
+  by rewrite /j' /pamax_pos -sq index_mem (perm_mem pe) mem_iota.
+pose j2 := (sz.-1 - j)%N.
+have lj2 : (j2 < sz)%N by rewrite /j2; lia.
+have ne2 : j2 != j' by apply: contraNneq ne => e; rewrite ej' -e /j2; apply/eqP; lia.
+have e1 : (sz - j'.+1)%N = pargmax g r p by rewrite ej'; lia.
+have e2 : (sz - j2.+1)%N = j by rewrite /j2; lia.
+have l1' : lead_index g r (prev p) j' = Some k1 by rewrite lead_index_prev // e1.
+have lk' : lead_index g r (prev p) j2 = Some k by rewrite lead_index_prev // e2.
+have := @amax_spec _ g r (prev p) wfb_prev pos' j2 k1 k; rewrite psize_prev -/j' => /(_ lj2 ne2 l1' lk').
+rewrite !cell_prev // e1 e2 /=.
+have -> : (j2 < j')%N = (pargmax g r p < j)%N by rewrite ej' /j2; lia.
+by [].
+Qed.
+End Rev.
